@@ -469,9 +469,10 @@ def process_slice(ctx, tasks, acc, ok_build, scan_sel):
 
 
 def run(ctx):
-    ok_build = ctx.lean_stage(["emph_chars"], ["Verif.Props.C04", "Verif.Props.Coalesce", "Verif.Props.Emphasis", "Verif.Props.GfmRender"])
+    ok_build = ctx.lean_stage(["emph_chars"], ["Verif.Props.C04", "Verif.Props.Coalesce", "Verif.Props.Emphasis", "Verif.Props.GfmRender", "Verif.Props.InlineLoop"])
     import blocks
     blocks.emphasis(ctx)       # resolve_wellNested: emphasis start/end tokens balanced and properly nested for every input
+    blocks.inlineloop(ctx)     # inline_loop_order: the inline token list only grows at its end, no two adjacent plain text tokens
     blocks.gfm(ctx)            # the generator's stack discipline on well-formed streams (render_run, render_balanced)
     ctx.block("coalescelib", "coalesce", __import__("blocks").SRC["coalesce"])        # coalesce pass preserves well-formedness (coalesce_preserves_wf)
     if not ok_build:
